@@ -199,10 +199,17 @@ fn run_one(b: &Bundle, p: &FsTzdbProvider) -> Pair {
             }
         }
         "ZonedDateTime::since" | "ZonedDateTime::until" => {
-            let Some(other) = zdt(&b.b, &b.zone2, &b.cal2) else {
-                return Pair::NoInput("other-out-of-range");
+            // one case in four: the argument is the receiver itself and the options are taken as generated (valid or
+            // not): a "nothing to measure" shortcut in the wrapper must still validate the options
+            let identical = b.k % 4 == 0;
+            let (other, s) = if identical {
+                (z.clone(), diff_settings_of(b))
+            } else {
+                let Some(other) = zdt(&b.b, &b.zone2, &b.cal2) else {
+                    return Pair::NoInput("other-out-of-range");
+                };
+                (other, diff_settings_of(&super::gen19::project_units(b, 1, 10, false)))
             };
-            let s = diff_settings_of(&super::gen19::project_units(b, 1, 10, false));
             if f.ends_with("since") {
                 ab!(z.since_with_provider(&other, s, p), z.since(&other, s))
             } else {
